@@ -71,6 +71,11 @@ Lemma stf_fails_at_transfer S consume (deposit to_voucher transfer : S -> result
   send_to_fx_ibc S consume deposit to_voucher transfer s = Err e.
 Proof. intros H1 H2 H3. unfold send_to_fx_ibc. rewrite H1. cbn. rewrite H2. cbn. exact H3. Qed.
 
+Lemma stf_transfer_failure_keeps_nothing S consume (deposit to_voucher transfer : S -> result S) s s1 s2 e :
+  deposit (consume s) = Ok s1 -> to_voucher s1 = Ok s2 -> transfer s2 = Err e ->
+  send_to_fx_ibc_tx S consume deposit to_voucher transfer s = (s, false).
+Proof. intros. eapply stf_failure_keeps_nothing. eapply stf_fails_at_transfer; eauto. Qed.
+
 (* ------------------------------------------------------------------------------------------ *)
 (** * boundary 3: gov *)
 
